@@ -451,7 +451,9 @@ pub fn small_session_strategy(o: SmallOpts) -> BoxedStrategy<SessSpec> {
                         t = n * b;
                     }
                 }
-                let short = if scheme == Scheme::Raptor { 0 } else { short % e };
+                // (a short last symbol is fine for flute's own Raptor receiver; that an RFC 5053 receiver
+                // would see other symbol boundaries is C08's open finding, not the channel checks' business)
+                let short = short % e;
                 let size = if o.allow_empty && empty == 0 { 0 } else { (t * e as u32) as usize - short as usize };
                 let al = if matches!(scheme, Scheme::RaptorQ | Scheme::Raptor) { 4 } else { 1 };
                 let mut ob = ObjSpec::simple(size, seed);
